@@ -19,6 +19,7 @@ import (
 )
 
 func fp(f float64) *float64 { return &f }
+func intp(i int) *int       { return &i }
 
 // probeDesign exhibits every known finding of C07 at once.
 func probeDesign() *m.Design {
@@ -42,6 +43,14 @@ func probeDesign() *m.Design {
 			Headers:   []m.Mapping{{Attr: "tok", Wire: "Authorization"}, {Attr: "h", Wire: "X-H"}},
 			Responses: []*m.Response{{Status: 200, Headers: []m.Mapping{{Attr: "n", Wire: "X-N"}}}}}})
 	s.Files = []m.FileServer{{Path: "/static/{*path}", Filename: "public"}}
+	// a recursive type through a map and through an array: its generated
+	// examples bottom out (recursion limit)
+	d.Types = []*m.UserType{{Name: "Item", Var: "v2", Attr: rt.Obj(
+		rt.Fld("label", m.Prim(m.String), false),
+		rt.Fld("size", &m.Attr{Type: &m.Type{Kind: m.Map, Key: m.Prim(m.String), Val: m.UserRef("Item")}, V: &m.Validation{MaxLen: intp(1)}}, false),
+		rt.Fld("tags", &m.Attr{Type: &m.Type{Kind: m.Array, Elem: m.UserRef("Item")}, V: &m.Validation{MaxLen: intp(1)}}, false))}}
+	s.Methods = append(s.Methods, &m.Method{Name: "tree", Payload: m.UserRef("Item"), Result: m.UserRef("Item"),
+		HTTP: &m.HTTPEndpoint{Routes: []m.Route{{Verb: "POST", Path: "/tree"}}}})
 	d.Services = []*m.Service{s}
 	return d
 }
@@ -119,6 +128,13 @@ func TestProbes(t *testing.T) {
 		t.Logf("uint32 probe: validate says %v", err)
 		return err != nil && strings.Contains(err.Error(), "int32"), "UInt32 with Default(4294967295): validator says " + errString(err)
 	})
+	rt.Probe("C07-nil-example-yaml-json-differ", func() (bool, string) {
+		where := nilVsEmptyMap(normalise(t3j), normalise(t3y), "")
+		if where == "" {
+			where = nilVsEmptyMap(normalise(t2j), normalise(t2y), "")
+		}
+		return where != "", "generated example of a recursive type: null in the JSON rendering, {} in the YAML rendering at " + where
+	})
 	rt.Probe("C07-required-header-with-default-documented-optional", func() (bool, string) {
 		ps, _ := get(t3j, "paths", "/m", "post", "parameters").([]any)
 		for _, p := range ps {
@@ -130,6 +146,40 @@ func TestProbes(t *testing.T) {
 		}
 		return false, "X-H not documented"
 	})
+}
+
+// nilVsEmptyMap returns the first path at which the JSON tree holds null and
+// the YAML tree an empty mapping.
+func nilVsEmptyMap(a, b any, path string) string {
+	if a == nil {
+		if bm, ok := b.(map[string]any); ok && len(bm) == 0 {
+			return path
+		}
+		return ""
+	}
+	switch at := a.(type) {
+	case map[string]any:
+		bm, ok := b.(map[string]any)
+		if !ok {
+			return ""
+		}
+		for k, av := range at {
+			if w := nilVsEmptyMap(av, bm[k], path+"/"+k); w != "" {
+				return w
+			}
+		}
+	case []any:
+		bl, ok := b.([]any)
+		if !ok || len(bl) != len(at) {
+			return ""
+		}
+		for i := range at {
+			if w := nilVsEmptyMap(at[i], bl[i], path+"/[]"); w != "" {
+				return w
+			}
+		}
+	}
+	return ""
 }
 
 func errString(err error) string {
